@@ -33,6 +33,19 @@ PROPS = {
         "exhaustive": False,
         "label": "full",
     },
+    "C15": {
+        "components": ["flist"],
+        "trusted_base": [KERNEL, EXTRACT, HARNESSTB, GEN,
+                         "modelled, not verified: Go filepath.Clean (Model/Flist.v path_clean), Go string comparison / sort.Slice (bytewise order, insertion sort in the model, uniqueness of the sorted order proved), os.FileMode -> S_IF* mapping (observed through lstat in the harness)"],
+        "assumptions": [
+            "flist theorems assume clean names shorter than PATH_MAX, int32/int64 field ranges, and that untransmitted fields carry their zero value (entry_ok); writer and reader agree on the rdev field (devices = specials, the protocol-27 meaning of -D)",
+            "the daemon / remote-shell handshake strings are covered by the session-level properties (C07/C08/C19 harness legs), not by a theorem here",
+            "tridge rsync 3.2.7 is used as an independent protocol-27 sender when the binary is present (skipped and recorded otherwise)",
+        ],
+        "rule": "decoder: random entry lists (0..8, sometimes 30..230 entries; names with shared prefixes, bytes >= 0x80, 250+200-byte names; lengths 0, 2^31-1, 2^31, 2^40; all types; mtimes at the int32 boundaries; option sets over uid/gid/links/devices/checksum) encoded by an independent reference encoder with random or maximally compressing conforming choices, fed to the real ReceiveFileList and to the model; plus truncated, bit-flipped and hostile-length streams. encoder: real SendFileList over generated trees (regular files, directories, symlinks, fifo, socket, char/block devices, owners 0/65534, sparse files at the 32/64-bit length boundaries) under 9 option sets, compared byte for byte with the model's encoder and decoded by an independent decoder; file numbering compared with the bytewise name order. non-trivial = list of >= 2 entries (decoder) / > 3 entries (encoder)",
+        "exhaustive": False,
+        "label": "full for file list, id lists, length encoding and numbering; handshake strings by correspondence only",
+    },
     "C16": {
         "components": ["edits", "sender"],
         "trusted_base": [KERNEL, EXTRACT, HARNESSTB, GEN, MD4NOTE,
